@@ -6,7 +6,7 @@ use crate::{
             add_offcircuit, affine_coordinates_offcircuit, inner_product_offcircuit,
             load_offcircuit, mod_exp_offcircuit, mul_offcircuit, neg_offcircuit,
             poseidon_offcircuit, sha256_offcircuit, sha512_offcircuit, sub_offcircuit,
-            Operation::*,
+            Operation::{self, *},
         },
         Instruction,
     },
@@ -59,6 +59,7 @@ impl Parser {
                 vec![]
             }
             AssertEqual => {
+                check_comparable(instruction.operation, &inps[0], &inps[1])?;
                 if inps[0] != inps[1] {
                     return Err(Error::Other(format!(
                         "assertion violated: {:?} == {:?}",
@@ -68,6 +69,7 @@ impl Parser {
                 vec![]
             }
             AssertNotEqual => {
+                check_comparable(instruction.operation, &inps[0], &inps[1])?;
                 if inps[0] == inps[1] {
                     return Err(Error::Other(format!(
                         "assertion violated: {:?} != {:?}",
@@ -76,7 +78,10 @@ impl Parser {
                 }
                 vec![]
             }
-            IsEqual => vec![IrValue::Bool(inps[0] == inps[1])],
+            IsEqual => {
+                check_comparable(instruction.operation, &inps[0], &inps[1])?;
+                vec![IrValue::Bool(inps[0] == inps[1])]
+            }
             Add => vec![add_offcircuit(&inps[0], &inps[1])?],
             Sub => vec![sub_offcircuit(&inps[0], &inps[1])?],
             Mul => vec![mul_offcircuit(&inps[0], &inps[1])?],
@@ -107,5 +112,19 @@ impl Parser {
         };
 
         insert_many(&mut self.memory, &instruction.outputs, &outputs)
+    }
+}
+
+/// Equality operations are supported on two values of the same type (byte arrays of the same
+/// length), for all types except `JubjubScalar`, as in-circuit.
+fn check_comparable(op: Operation, x: &IrValue, y: &IrValue) -> Result<(), Error> {
+    use IrValue::*;
+    match (x, y) {
+        (Bool(_), Bool(_))
+        | (Native(_), Native(_))
+        | (BigUint(_), BigUint(_))
+        | (JubjubPoint(_), JubjubPoint(_)) => Ok(()),
+        (Bytes(v), Bytes(w)) if v.len() == w.len() => Ok(()),
+        _ => Err(Error::Unsupported(op, vec![x.get_type(), y.get_type()])),
     }
 }
